@@ -29,4 +29,4 @@ _orm.define(globals(), "C31", ("C31",), "ordering",
             "cycles are not part of the universe (no mutually dependent rows are generated)",
             weights={"mk_child": 6, "h_doc": 4, "q_ops": 4, "delete": 5, "set_parent": 4, "node_parent": 4, "bs_remove": 3, "bs_replace": 2,
                      "k_rename": 2, "follow": 3, "tag_add": 3, "flush": 5, "commit": 2, "requery": 0, "get": 0, "lazy": 1, "label": 6, "mk": 5,
-                     "set_k": 2}, shape=_shape)
+                     "set_k": 2, "row_switch": 3}, shape=_shape)
